@@ -11,7 +11,10 @@ import StorageModel.Generated.AcceptTable
             a = query assembled through the exported API (recipe in <query>; harness/c20_api.go)
      maps, pub   comma separated names `x<hex>`, `-` for the empty list; for a child store (StoreDefinition.Parent
             set) the lists of the stores up the parent chain follow, nearest first, separated by `^`
-            (`<own>^<parent>^<grandparent>`; <mask> is then `<own>^<parent>^…` too) — the validating store is the first
+            (`<own>^<parent>^<grandparent>`; <mask> is then `<own>^<parent>^…` too) — the validating store is the first.
+            A `<maps>` entry is `name` or `name=key` (the map symbol NAMED name is stored under KEY key); after `;` the
+            (name, key) pairs of the store's other symbols follow (`x..=x..,…`); <mask> may start with `k<n>:`, the
+            harness's naming schema (harness/c20_keyed.go).  Only the validating store's keys enter the model.
      tree   pre-order:  Z  |  T <kind> (typed nil pointer in an interface)  |  N <kind> <#strs> {<field> x<hex>} <#kids> {<label> <tree>}
    model output:  ok v=<visited> g=<…> gp=<0|1>  |  err x<hex> v=<visited> g=<…> gp=<0|1>  |  panic  |  - v=<visited> (tag u)  |  bad-shape
    tag a lines end with `// X <names> // G <names>`: the identifiers the recipe hands to the API (X) and the sort clause in
@@ -34,6 +37,29 @@ def encodeName (b : Bytes) : String := "x" ++ Bytes.toHex b
 
 def decodeNames (s : String) : Option (List Bytes) :=
   if s == "-" then some [] else (s.splitOn ",").mapM decodeName
+
+/-- `name` or `name=key` -/
+def decodeEntry (s : String) : Option (Bytes × Bytes) :=
+  match s.splitOn "=" with
+  | [n] => (decodeName n).map fun b => (b, b)
+  | [n, k] => do some (← decodeName n, ← decodeName k)
+  | _ => none
+
+def decodeEntries (s : String) : Option (List (Bytes × Bytes)) :=
+  if s == "-" then some [] else (s.splitOn ",").mapM decodeEntry
+
+/-- the `<maps>` field of one store: `<map entries>[;<symbol entries>]`, an entry is `name` (stored under its name) or
+    `name=key`  →  (names of the map symbols, (name, key) of the map symbols, (name, key) of the other symbols) -/
+def decodeMaps (s : String) : Option (List Bytes × List (Bytes × Bytes) × List (Bytes × Bytes)) :=
+  match s.splitOn ";" with
+  | [ms] => do
+    let m ← decodeEntries ms
+    some (m.map (·.1), m, [])
+  | [ms, ss] => do
+    let m ← decodeEntries ms
+    let sy ← decodeEntries ss
+    some (m.map (·.1), m, sy)
+  | _ => none
 
 def encodeNames (l : List Bytes) : String :=
   if l.isEmpty then "-" else ",".intercalate (l.map encodeName)
@@ -107,14 +133,18 @@ structure Case where
 def parseCase (line : String) : Option Case :=
   match splitSp line with
   | tag :: _mask :: maps :: pub :: _query :: toks => do
-    let (m, pm) ← match ← (maps.splitOn "^").mapM decodeNames with
+    let lv ← (maps.splitOn "^").mapM decodeMaps
+    let (m, pm) ← match lv.map (·.1) with
       | m :: pm => some (m, pm)
       | [] => none
+    let (mk, sk) := match lv with
+      | (_, mk, sk) :: _ => (mk, sk)
+      | [] => ([], [])
     let (p, pp) ← match ← (pub.splitOn "^").mapM decodeNames with
       | p :: pp => some (p, pp)
       | [] => none
     if pm.length != pp.length then none
-    let cfg : PubCfg := { maps := m, pub := p, parents := pm.zip pp }
+    let cfg : PubCfg := { maps := m, pub := p, parents := pm.zip pp, mapKeys := mk, symKeys := sk }
     let (t, rest) ← parseTree toks
     match rest with
     | [] => some { tag := tag, cfg := cfg, tree := t, source := none }
